@@ -5,6 +5,7 @@ from vf.props import common as C
 def plan(tier):
     conds = [
         Cond("vf.h.h_order", "h_rank", case=0, timeout=600, label="H01a-ranking", weight=5),
+        Cond("vf.h.h_order", "h_rank_time", case=0, timeout=600, label="H01b-ranking-by-time", weight=8),
         Cond("vf.h.h_order", "h_nearest", case=0, timeout=600, label="H01c-nearest-entity", weight=5),
         Cond("vf.h.h_req", "h_price_order", case=1, timeout=600, label="H01d-price-keys", weight=5),
     ]
@@ -18,15 +19,15 @@ def plan(tier):
         "min_classes": 8,
         "explanation": "C01: a run is a composition of deterministic functions; the only process-dependent inputs are the iteration orders of hash-based containers (and uuid tags, exempt). "
                        "For every order-sensitive site the unordered container is replaced by a view whose iteration order is a solver-chosen permutation and the real function is run under two "
-                       "permutations on the same symbolic state: equal results on all paths. Sites: charger ranking over on_shift_access_chargers, nearest_entity over the k_ring cell set, "
+                       "permutations on the same symbolic state: equal results on all paths. Sites: both charger rankings over on_shift_access_chargers (in shortest_time_to_charge_ranking also every immutables.Map the function builds itself iterates in a solver-chosen order), nearest_entity over the k_ring cell set, "
                        "price keys naming one station twice, the order in which SimulationState.vehicles yields its values to perform_vehicle_state_updates, and end-to-end StepSimulation.update (ChargingFleetManager + Dispatcher) with fleet set and plug set permuted. "
                        "An AST inventory of iterations over unordered containers in nrel/hive is regenerated on every run and listed (covered / insensitive by form / exempt / uncovered).",
-        "entry_points": ["assignment_ops.nearest_shortest_queue_ranking", "H3Ops.nearest_entity", "ChargingPriceUpdate.update/_map_to_station_ids", "StepSimulation.update",
+        "entry_points": ["assignment_ops.nearest_shortest_queue_ranking", "assignment_ops.shortest_time_to_charge_ranking", "H3Ops.nearest_entity", "ChargingPriceUpdate.update/_map_to_station_ids", "StepSimulation.update",
                          "Dispatcher.generate_instructions", "ChargingFleetManager.generate_instructions", "instruction_generator_ops.generate_instructions"],
-        "bounds": ["containers of 2-3 elements (all permutations in the solver's domain)", "ranking: 3 plug types, installed 0..3, queued 0..4", "nearest: 3 stations in 3 search cells of ring 1, distances 0..3, validity bits",
+        "bounds": ["containers of 2-3 elements (all permutations in the solver's domain)", "ranking: 3 plug types, installed 0..3, queued 0..4", "ranking by time: 3 plug types, vehicle energy from {10, 49, 50} kWh, 0..3 steps left in the simulation (estimates capped: ties), no other vehicle at the station", "nearest: 3 stations in 3 search cells of ring 1, distances 0..3, validity bits",
                    "step: 2 vehicles (one in both fleets), 2 requests of either fleet, energy of v1 from {2, 8, 40} kWh, 4x2 placements"],
         "outside": ["whole scenarios through file handlers", "order-insensitivity of sites classified by form is a syntactic argument", "numpy/scipy tie-breaking (deterministic C code)",
                     "float summation order in SummaryStats"],
-        "stubs": C.STUBS_COMMON + C.STUBS_UPD + ["OrderedView stands in for set/frozenset/k_ring results (also in replay: a hash seed cannot be steered to a chosen permutation)"],
+        "stubs": C.STUBS_COMMON + C.STUBS_UPD + ["PermMap stands in for immutables.Map objects constructed inside assignment_ops (module-level name `immutables` rebound)", "OrderedView stands in for set/frozenset/k_ring results (also in replay: a hash seed cannot be steered to a chosen permutation)"],
         "assumptions": ["any permutation of a small str set is realisable by some hash seed"],
     }
